@@ -148,7 +148,8 @@ def draw_azimuths(rng, n_az):
         # azimuths need not have a short decimal representation: thirds, values a rounding error off a round number,
         # neighbours closer than a micro-degree
         j = rng.randrange(len(vals))
-        vals[j] = rng.choice([vals[j] + 1 / 3, vals[j] + 0.1 + 0.2, 22.499999999999996 + j, vals[j] + 1e-7 * (j + 1)])
+        vals[j] = rng.choice([vals[j] + 1 / 3, vals[j] + 0.1 + 0.2, 22.499999999999996 + j, vals[j] + 1e-7 * (j + 1),
+                              rng.choice([1e-7, 5e-05, 2.5e-6])])       # (the last ones print in exponent notation)
         if rng.random() < 0.4 and len(vals) >= 2:
             k = (j + 1) % len(vals)
             vals[k] = vals[j] + 3e-7
